@@ -107,7 +107,16 @@ def run_scenario(ctx, idx, scn, seed, max_dumps, timeout):
                       "max_events": ncommits + 25}
             return k, launch("resume", spec_b, timeout)
         with ThreadPoolExecutor(4) as ex:
-            for k, (B, eb) in ex.map(resume, picks):
+            resumed = list(ex.map(resume, picks))
+        # The dumped output handlers re-open the ORIGINAL run's '<file>.tmp' and rename it when their run ends, so concurrent
+        # resumes of one run share that path: a resume that failed on exactly this file is repeated alone (harness race,
+        # no user resumes several dumps of one run at the same time); a second failure is reported.
+        for j, (k, (B, eb)) in enumerate(resumed):
+            if B is not None and B["error"] and "FileNotFoundError" in B["error"] and ".tmp" in B["error"]:
+                results.append(("count", "resumes_repeated_alone_after_shared_output_file_race", 1))
+                resumed[j] = resume(k)
+        if True:
+            for k, (B, eb) in resumed:
                 if B is None:
                     results.append(("inconclusive", f"{label}: resume of dump {k} did not report: {eb}"))
                     continue
